@@ -73,7 +73,7 @@ func runGossip(run *evid.Run, prop string, jobs []gossipJob) {
 		st := &gw.Stats{}
 		sc := gw.Build(p)
 		res := mc.Explore[gw.Event](&gw.Sys{Sc: sc, Stats: st}, mc.Options{
-			MaxDepth: j.MaxDepth, Deadline: j.Deadline, DeterminismEvery: 1000,
+			MaxDepth: j.MaxDepth, Deadline: j.Deadline, DeterminismEvery: 1000, ExploreBeyondKnown: true,
 			Known: func(v mc.Violation) bool { _, ok := evid.IsKnown(v.Property, v.Sig); return ok },
 		})
 		states += res.States
